@@ -127,7 +127,7 @@ pub fn c09(ctx: &GCtx) -> i32 {
         return code;
     }
     let tg = targets(ctx);
-    let per_type = ctx.tier.pick(120, 3000);
+    let per_type = ctx.tier.pick(300, 5000);
     let prealloc_open = ctx.findings.is_open("C09", "async-count-prealloc");
     let prealloc_hits = std::cell::Cell::new(0u64);
     let swallow_hits = std::cell::Cell::new(0u64);
@@ -287,7 +287,7 @@ pub fn c12(ctx: &GCtx) -> i32 {
         return code;
     }
     let tg = targets(ctx);
-    let per_type = ctx.tier.pick(80, 2000);
+    let per_type = ctx.tier.pick(250, 4000);
     let utm_open = ctx.findings.is_open("C08", "union-variant-wire-type-mismatch");
     let faults = prop_oneof![
         5 => Just(Fault::None),
@@ -389,7 +389,7 @@ pub fn c11(ctx: &GCtx) -> i32 {
         return code;
     }
     let tg = targets(ctx);
-    let per_type = ctx.tier.pick(60, 1500);
+    let per_type = ctx.tier.pick(250, 3000);
     let tail_open = ctx.findings.is_open("C13", "arg-type-tail-swallow");
     let utm_open = ctx.findings.is_open("C08", "union-variant-wire-type-mismatch");
     let mut seen = std::collections::BTreeSet::new();
@@ -521,7 +521,7 @@ pub fn c19(ctx: &GCtx) -> i32 {
         return code;
     }
     let tg = targets(ctx);
-    let per_type = ctx.tier.pick(150, 4000);
+    let per_type = ctx.tier.pick(250, 5000);
     let prealloc_open = ctx.findings.is_open("C09", "async-count-prealloc");
     let leak_open = ctx.findings.is_open("C19", "list-elem-leak");
     let mut seen = std::collections::BTreeSet::new();
